@@ -141,6 +141,7 @@ SRC_TIES = {
     'C09': 'calculate_curve (first entry, loop body and bounds, closing entry) and the look-up _calculate_by_curve_and_mach_list (bracket, loop condition and body, selection, evaluation)',
     'C11': 'should_record and clear_current_flag',
     'C12': '_WindSock.__init__/update_cache/vector_for_range/current_vector and Wind.vector',
+    'C14': 'linear_interpolation in slices, sectional_density, BCPoint._machC and the Mach of a velocity point (DragModelMultiBC glue matched structurally)',
     'C15': 'setup_seen_zero, check_zero_crossing, check_mach_crossing, should_record',
     'C16': 'danger_space: half height and both scan tests (scan shapes matched structurally)',
     'C17': 'Ammo.get_velocity_for_temp and calc_powder_sens with its guard',
